@@ -394,7 +394,7 @@ def generate(rng, tier, idx):
     pr = rng.random()
     buffering = is_buffering(sc)
     if pr < 0.5 or buffering or sc['bound'] is None:
-        sc['producer'] = {'type': 'finite', 'rows': gen_rows(rng, rng.choice([0, 1, 2, 3, 4, 5, 6, 8]), ragged=rng.random() < 0.15)}
+        sc['producer'] = {'type': 'finite', 'rows': gen_rows(rng, rng.choice([0, 1, 2, 3, 4, 5, 6, 8, 8, 11, 14]), ragged=rng.random() < 0.15)}     # (11, 14: NR gets a second digit)
     elif pr < 0.9:
         shape = rng.choice(['dense', 'sparse', 'sparse', 'periodic'])
         sc['producer'] = {'type': 'endless', 'shape': shape, 'k1': rng.choice([1, 3, 7]), 'p1': rng.choice([2, 3, 5, 11]) if shape != 'dense' else 1000003,
@@ -402,6 +402,11 @@ def generate(rng, tier, idx):
                           'sparse_after': rng.choice([1, 2, 3, 5, 8]) if shape == 'sparse' else None}
     else:
         sc['producer'] = {'type': 'stall_at_bound', 'rows': gen_rows(rng, rng.choice([3, 5, 8, 12]))}
+    if sc['producer']['type'] == 'finite' and sc['order'] and (sc['unnest_at'] is not None or sc['join']) and rng.random() < 0.008:
+        # more than 1024 records reach the sort buffer, several of them per input record (sizes at which a writer may
+        # start to sort in runs, spill or re-allocate)
+        sc['producer'] = {'type': 'finite', 'rows': gen_rows(rng, rng.choice([700, 900, 1300]))}
+        sc['large'] = True
     sc['join_rows'] = None
     if sc['join']:
         keys = ['v1', 'v2', 'x', 'nokey', 'v1']
@@ -732,6 +737,13 @@ def shrinks(sc):
         c = dict(sc)
         c.pop('writer_truthy')
         yield c
+    if sc.get('large') and sc['producer']['type'] == 'finite' and len(sc['producer']['rows']) > 40:
+        rows = sc['producer']['rows']
+        for cut in (len(rows) // 2, len(rows) - 50, len(rows) - 5):
+            if 0 < cut < len(rows):
+                c = dict(sc)
+                c['producer'] = {'type': 'finite', 'rows': rows[:cut]}
+                yield c
     if sc.get('bound'):
         b = sc['bound']
         for nn in (1, b['n'] - 1):
